@@ -11,6 +11,8 @@
     [verdict], [policy_verdict], [pod_ordinal], [sts_named], [lost], [verdict_allows], [licence], [cleared],
     [resync_pass]; further [keeps], [still_reserved], [can_reserve], [pod_gone].  Proofs: Proofs/PluginPolicyP.v.
     The only assumptions on histories are [wf_op] / [WInv] of Proofs/PluginInv.v.
+    Section 6 (the converse direction: nothing is released while the pod is alive; invariant [KeyUid], F18):
+    Proofs/PluginLiveP.v.
 
     Policy codes: 0 default, 1 immutable, 2 never ([policy_of]: a pool annotation means never).  Codes above 2
     are not produced by parseReleasePolicy; statements that depend on the decision carry the premise [pol ≤ 2]
@@ -20,7 +22,7 @@ From stdpp Require Import gmap.
 From Galaxy.Base Require Import Strs.
 From Galaxy.Model Require Import Nets Pool Ipam Plugin.
 From Galaxy.Model Require Keys.
-From Galaxy.Proofs Require Import IpamP PluginInv PluginPolicyP.
+From Galaxy.Proofs Require Import IpamP PluginInv PluginUnbindP PluginWitness PluginStaleP PluginPolicyP PluginLiveP.
 Local Open Scope N_scope.
 
 (** 1. Safety, one step of a well-formed history: an IP allocated under the key of pod [q] that is free or keyed
@@ -144,3 +146,113 @@ Example c03_nonvacuous :
             e_uid e' = [] ∧ e_node e' = [] ∧ e_policy e' = 1).
 Proof. exact c03_example_l. Qed.
 Print Assumptions c03_nonvacuous.
+
+(** 6. The IP of a pod that is alive is not released - whether the pod is bound or not (F18).
+
+    [WInv] speaks about live BOUND pods only.  A deployment pod handed a reserved IP at Filter time holds an entry stored
+    for its UID before it is bound.  What protects that entry is the invariant [KeyUid]: all entries of one key carry the
+    same UID or the empty UID.  It holds in every reachable world: Filter gives a key an entry only when it has none, Bind
+    and the pod-IP sync refuse while an IP of the key is stored for another UID (F13, F18), events / resync items / API
+    releases only remove entries or clear their UID, reload / restart rebuild the table from the store. *)
+Theorem keyuid_preserved : ∀ w o, WInv w → KeyUid w → wf_op w o → KeyUid (pstep w o).1.
+Proof. exact keyuid_step. Qed.
+Print Assumptions keyuid_preserved.
+
+Theorem keyuid_invariant : ∀ provider nodes ops, wf_hist (world0 provider nodes) ops →
+  let w := prun (world0 provider nodes) ops in
+  ∀ x e y e', i_alloc (w_ipam w) !! x = Some e → i_alloc (w_ipam w) !! y = Some e' → e_key e = e_key e' →
+              e_uid e = [] ∨ e_uid e' = [] ∨ e_uid e = e_uid e'.
+Proof. exact keyuid_reachable. Qed.
+Print Assumptions keyuid_invariant.
+
+(** one resync item - of ANY IP - leaves an entry stored for the UID of an alive pod of the API server under the pod's key
+    (same key: the item's entry is stored for the pod's UID or for none, so "pod running" holds and nothing happens;
+    other key: the item does not touch the entry) *)
+Theorem resync_keeps_alive_pod : ∀ w ip o ocl fl x e p, WInv w → KeyUid w →
+  i_alloc (w_ipam w) !! x = Some e → e_uid e ≠ [] → e_uid e = pd_uid p →
+  w_pods w !! pk p = Some p → finished p = false → pod_key p = e_key e →
+  ∃ e', i_alloc (w_ipam (resync_section w ip o ocl fl).1) !! x = Some e' ∧ e_key e' = e_key e.
+Proof. exact resync_keeps_alive. Qed.
+Print Assumptions resync_keeps_alive_pod.
+
+(** a pod event of another incarnation ([q], any well-formed pod object) does not touch it either: under the same key the
+    F1 test fires on the entry itself ... *)
+Theorem event_keeps_alive_pod : ∀ w q o oun fl x e p, WInv w →
+  i_alloc (w_ipam w) !! x = Some e → e_uid e ≠ [] → e_uid e = pd_uid p → pod_key p = e_key e →
+  wf_pod q → pd_uid q ≠ pd_uid p →
+  ∃ e', i_alloc (w_ipam (unbind_section true w q o oun fl).1) !! x = Some e' ∧ e_key e' = e_key e.
+Proof. exact event_keeps_alive. Qed.
+Print Assumptions event_keeps_alive_pod.
+
+(** ... and the queue never holds an event of an incarnation that is alive *)
+Theorem queued_event_keeps_alive_pod : ∀ w n o oun fl x e p, WInv w →
+  i_alloc (w_ipam w) !! x = Some e → e_uid e ≠ [] → e_uid e = pd_uid p →
+  w_pods w !! pk p = Some p → finished p = false → pod_key p = e_key e →
+  ∃ e', i_alloc (w_ipam (pstep w (PEvent n o oun fl)).1) !! x = Some e' ∧ e_key e' = e_key e.
+Proof. exact event_step_keeps_alive. Qed.
+Print Assumptions queued_event_keeps_alive_pod.
+
+(** in every reachable world, for every pod event and every resync item ([release_step]) *)
+Theorem alive_pod_keeps_ip : ∀ provider nodes ops op x e p,
+  wf_hist (world0 provider nodes) ops → release_step op →
+  let w := prun (world0 provider nodes) ops in
+  i_alloc (w_ipam w) !! x = Some e → e_uid e ≠ [] → e_uid e = pd_uid p →
+  w_pods w !! pk p = Some p → finished p = false → pod_key p = e_key e →
+  ∃ e', i_alloc (w_ipam (pstep w op).1) !! x = Some e' ∧ e_key e' = e_key e.
+Proof. exact alive_pod_keeps_ip_l. Qed.
+Print Assumptions alive_pod_keeps_ip.
+
+(** F18 (defect, repaired in 58ad117): before the repair the pod-IP sync ([sync_pod_ip_old] of Proofs/PluginStaleP.v: no test
+    of the UIDs the key's IPs are stored for) broke this on a reachable world - the history the real code ran
+    (Proofs/PluginLiveP.v [h_live1], [h_live2]).  Deployment ns1/dp, policy immutable: dp-aaa (uA) and dp-bbb are bound to
+    10.100.0.2 / 10.100.0.3, dp-aaa runs - [pa] is the object the informer shows; dp-bbb is deleted (10.100.0.3 parked
+    under the deployment prefix), the deployment is scaled to 1, dp-aaa is deleted (10.100.0.2 released); a new pod
+    dp-aaa (uB) - [p] - is created and Filter hands it 10.100.0.3 (stored for uB; alive, not bound, not yet seen by the
+    informer).  The sync with the earlier object [pa] takes 10.100.0.2 back under the shared key, stored for uA: [WInv]
+    still holds, [KeyUid] does not; the resync item of 10.100.0.2 finds "pod (uA) not running" and releases every IP of the
+    key - 10.100.0.3 of the alive pod included.  The repaired sync is refused and the same continuation keeps it. *)
+Theorem alive_pod_keeps_ip_refuted_old : ∃ nodes ops1 ops pa ip o ocl x e p,
+  (* a well-formed history - continued with the (repaired) sync step and the resync item - in which no step is stuck *)
+  wf_hist (world0 false nodes) ((ops1 ++ ops) ++ [PSyncPod pa no_faults; PResync ip o ocl no_faults]) ∧
+  existsb is_stuck (trace_fl true true true (world0 false nodes)
+                      ((ops1 ++ ops) ++ [PSyncPod pa no_faults; PResync ip o ocl no_faults])) = false ∧
+  (* [pa] is the object the informer showed after [ops1]: Running, annotated with [ip] *)
+  w_lister (prun (world0 false nodes) ops1) !! pk pa = Some pa ∧ pd_phase pa = 1 ∧ pd_ips pa = [ip] ∧
+  let w := prun (world0 false nodes) (ops1 ++ ops) in
+  WInv w ∧ KeyUid w ∧ wf_op w (PSyncPod pa no_faults) ∧
+  (* the informer shows no pod of that name now: the object is synced as given, by the old code and by the repaired *)
+  w_lister w !! pk pa = None ∧
+  (* [p] is the pod of that name now: another incarnation, alive, not bound, holding [x] under its key for its UID *)
+  i_alloc (w_ipam w) !! x = Some e ∧ e_uid e ≠ [] ∧ e_uid e = pd_uid p ∧
+  w_pods w !! pk p = Some p ∧ finished p = false ∧ pod_key p = e_key e ∧ pd_ips p = [] ∧
+  pk p = pk pa ∧ pd_uid p ≠ pd_uid pa ∧ pod_key pa = pod_key p ∧ ip ≠ x ∧
+  (* old behaviour: the sync takes [ip] back under the shared key for the old UID - [WInv] still holds, [KeyUid] does
+     not - and the resync item of [ip] (not stuck) frees the alive pod's [x] *)
+  let wo := sync_pod_ip_old w pa no_faults in
+  (∃ e0, i_alloc (w_ipam wo) !! ip = Some e0 ∧ e_key e0 = pod_key p ∧ e_uid e0 = pd_uid pa) ∧
+  i_alloc (w_ipam wo) !! x = Some e ∧ w_pods wo !! pk p = Some p ∧ WInv wo ∧ ¬ KeyUid wo ∧
+  (resync_section wo ip o ocl no_faults).2 = SOk ∧
+  i_alloc (w_ipam (resync_section wo ip o ocl no_faults).1) !! x = None ∧
+  i_alloc (w_ipam (resync_section wo ip o ocl no_faults).1) !! ip = None ∧
+  (* repaired behaviour, same continuation: the sync is refused, the resync item finds nothing, the pod keeps [x] *)
+  sync_given true w pa no_faults = w ∧
+  (resync_section (sync_given true w pa no_faults) ip o ocl no_faults).2 = SOk ∧
+  i_alloc (w_ipam (resync_section (sync_given true w pa no_faults) ip o ocl no_faults).1) !! x = Some e ∧
+  i_alloc (w_ipam (prun (world0 false nodes) ((ops1 ++ ops) ++ [PSyncPod pa no_faults; PResync ip o ocl no_faults]))) !! x = Some e.
+Proof. exact alive_pod_keeps_ip_refuted_old_l. Qed.
+Print Assumptions alive_pod_keeps_ip_refuted_old.
+
+(** The hypotheses of [alive_pod_keeps_ip] are satisfiable and say something [WInv] does not: in the world after that
+    history the pod dp-aaa (uB) is alive and NOT bound, 10.100.0.3 is keyed by its key and stored for its UID; the resync
+    item of that very IP is not skipped, reaches the "pod running" test and leaves the entry as it is. *)
+Example alive_pod_keeps_ip_nonvacuous : ∃ nodes ops x o ocl fl e p,
+  wf_hist (world0 false nodes) (ops ++ [PResync x o ocl fl]) ∧ release_step (PResync x o ocl fl) ∧
+  let w := prun (world0 false nodes) ops in
+  WInv w ∧ KeyUid w ∧
+  i_alloc (w_ipam w) !! x = Some e ∧ e_uid e ≠ [] ∧ e_uid e = pd_uid p ∧
+  w_pods w !! pk p = Some p ∧ finished p = false ∧ pod_key p = e_key e ∧
+  pd_ips p = [] ∧ ¬ live_bound p ∧ w_lister w !! pk p = None ∧
+  resync_skip e (Keys.parse_key (e_key e)) = false ∧
+  i_alloc (w_ipam (pstep w (PResync x o ocl fl)).1) !! x = Some e.
+Proof. exact alive_pod_keeps_ip_nonvacuous_l. Qed.
+Print Assumptions alive_pod_keeps_ip_nonvacuous.
